@@ -187,10 +187,12 @@ func TestC05(t *testing.T) {
 				nm := []string{"t/1", "t/2", "t/3", "ab", "cd", "long/topic/name", "t/+"}
 				cfg := topics.PredefinedTopics{}
 				ne := rng.Intn(20)
+				// IDs: small ones and the boundaries of the legal range / of the byte and sign boundaries
+				idPool := []uint16{1, 2, 3, 4, 5, 6, 7, 8, 1, 2, 3, 4, 0xFFFE, 0xFFFD, 255, 256, 0x7FFF, 0x8000}
 				for e := 0; e < ne; e++ {
-					cfg.Add(cls[rng.Intn(len(cls))], nm[rng.Intn(len(nm))], uint16(1+rng.Intn(8)))
+					cfg.Add(cls[rng.Intn(len(cls))], nm[rng.Intn(len(nm))], idPool[rng.Intn(len(idPool))])
 				}
-				q := checkPredef(c, cfg, append(cls[1:], "other"), []uint16{1, 2, 3, 4, 5, 6, 7, 8, 9}, nm, 4)
+				q := checkPredef(c, cfg, append(cls[1:], "other"), []uint16{1, 2, 3, 4, 5, 6, 7, 8, 9, 0xFFFE, 0xFFFD, 255, 256, 0x7FFF, 0x8000}, nm, 4)
 				r.Count("queries", q)
 				c.Key("%s", cfgString(cfg))
 				n++
@@ -198,5 +200,5 @@ func TestC05(t *testing.T) {
 			c.Evals(n)
 		}
 	})
-	r.Finish("configurations: all 4^9=262144 maps over clients {a,b,*} x IDs {1,2,3} x names {x, y, the empty name, absent} (exhaustive, 256 slices), the repository's topics.yaml through ReadPredefinedTopicsFile, 50 generated YAML files (round trip), random larger maps. Per configuration every (client in a,b,c / id 1..4) name lookup and every (client, name) ID lookup is repeated 4-16 times (Go map iteration order varies) against a reference lookup; a configuration counts as one distinct case.", map[string]interface{}{"exhaustive_space": "4^9 configurations x 3 clients x (4 ids + 4 names)"})
+	r.Finish("configurations: all 4^9=262144 maps over clients {a,b,*} x IDs {1,2,3} x names {x, y, the empty name, absent} (exhaustive, 256 slices), the repository's topics.yaml through ReadPredefinedTopicsFile, 50 generated YAML files (round trip), random larger maps (5 clients, 7 names incl. a wildcard one, IDs 1-8 and the boundary IDs 255, 256, 0x7FFF, 0x8000, 0xFFFD, 0xFFFE). Per configuration every (client in a,b,c / id 1..4) name lookup and every (client, name) ID lookup is repeated 4-16 times (Go map iteration order varies) against a reference lookup; a configuration counts as one distinct case.", map[string]interface{}{"exhaustive_space": "4^9 configurations x 3 clients x (4 ids + 4 names)"})
 }
